@@ -126,6 +126,7 @@ Section Pres.
     intros HI Hstep. step_split Hstep Ea Est.
     all: try discriminate Hstep.
     all: injection Hstep as <-.
+    all: pop_cont_split.
     all: pose proof (stacks_lookup _ _ _ Ea) as Hst; rewrite Est in Hst.
     all: eapply (own_update s _ a _ _ HI Hst); [ solve_stacks | .. ].
     all: try (assert (Hrun := runner_working s a _ HI Hst ltac:(cbn; lia)); destruct Hrun as [Hrun Hnw]).
